@@ -28,7 +28,11 @@ def mat(A):
     """CSR triple exactly as stored (no sorting, no summing); entries must be integers."""
     from scipy.sparse import csr_matrix
     A = csr_matrix(A) if not hasattr(A, 'indptr') or A.format != 'csr' else A
-    dat = exact_ints(np.asarray(A.data, dtype=np.float64)) if A.data.dtype.kind != 'c' else None
+    if A.data.dtype.kind == 'c':
+        if np.any(A.data.imag != 0):
+            return None                           # matrices of the scenarios are real: an imaginary part is inexact
+        A = A.real.tocsr()
+    dat = exact_ints(np.asarray(A.data, dtype=np.float64))
     if dat is None:
         return None
     return {'n': int(A.shape[0]), 'm': int(A.shape[1]), 'ptr': [int(v) for v in A.indptr],
@@ -58,7 +62,13 @@ def cks(*objs):
     return out
 
 
+PART = ['re']          # complex scenarios are validated part by part (the helpers are real-linear for a real matrix)
+
+
 def vec(v):
+    v = np.asarray(v)
+    if v.dtype.kind == 'c':
+        v = v.real if PART[0] == 're' else v.imag
     return exact_ints(np.asarray(v, dtype=np.float64).ravel())
 
 
@@ -114,6 +124,22 @@ def split_object(rec, n):
 
 
 def execute(rec):
+    if rec.get('cplx'):
+        out = []
+        for part in ('re', 'im'):
+            PART[0] = part
+            try:
+                evs = execute_part(rec)
+            finally:
+                PART[0] = 're'
+            for ev in evs:
+                ev['tags'] = {'part': part}
+            out += evs
+        return out
+    return execute_part(rec)
+
+
+def execute_part(rec):
     import skfem.utils as su
     warnings.simplefilter('ignore')
     n = rec['n']
@@ -134,6 +160,11 @@ def execute(rec):
             if fmt != 'csr':
                 b = getattr(b, 'to' + fmt)()
         x = np.array(rec['x'], dtype=np.float64) if hasx else None
+        if rec.get('cplx'):
+            if x is not None:
+                x = x + 1j * np.array(rec['xi'], dtype=np.float64)
+            if hasb == 1:
+                b = b + 1j * np.array(rec['bi'], dtype=np.float64)
         kw, D0 = split_object(rec, n)
         return A, b, x, kw, D0
 
@@ -203,6 +234,8 @@ def execute(rec):
                 if hasb != 2 and (hasb or hasx):
                     # pipeline: solve(*condense(..)) with a stub solver returning integers
                     z = np.array([(5 * r + 1) % 17 - 8 for r in range(len(Ir))], dtype=np.float64)
+                    if rec.get('cplx'):
+                        z = z + 1j * np.array([(3 * r + 2) % 11 - 5 for r in range(len(Ir))], dtype=np.float64)
                     A_, b_, x_, kw_, _ = fresh()
                     args2 = dict(kw_)
                     if x_ is not None:
@@ -298,7 +331,7 @@ def execute(rec):
             events.append(ev)
 
     # ---- mpc
-    if rec.get('mpc') is not None and hasb == 1:
+    if rec.get('mpc') is not None and hasb == 1 and not rec.get('cplx'):   # affine constant g is real: not part-wise
         mp = rec['mpc']
         A, b, x, kw, D0 = fresh()
         ev = base('Mpc', A, b, None, np.array([], dtype=int))
@@ -399,6 +432,11 @@ def generate(tier, seed):
                           'g': [int(v) for v in rng.integers(-3, 4, size=ns)]}
         if k % 4 == 3:
             rec['fmt'] = ['csc', 'lil'][(k // 4) % 2]     # other storage formats that support indexing
+        if k % 5 == 2 and hasb != 2:
+            # complex prescribed values / right-hand side with a REAL matrix (validated part by part)
+            rec['cplx'] = 1
+            rec['xi'] = [int(v) for v in rng.integers(-5, 6, size=n)]
+            rec['bi'] = [int(v) for v in rng.integers(-5, 6, size=n)]
         recs.append(rec)
     # systems with known solution -> real solver
     for k in range(200 if tier == 'thorough' else 30):
@@ -445,7 +483,8 @@ def from_tlc(path):
 
 def scenario(sid, rec):
     return {'id': sid, 'recipe': rec, 'tags': {'form': rec['form'], 'n': rec['n'], 'hasb': rec['hasb'],
-                                               'family': rec.get('family', 'random'), 'fmt': rec.get('fmt', 'csr')},
+                                               'family': rec.get('family', 'random'), 'fmt': rec.get('fmt', 'csr'),
+                                               'cplx': int(bool(rec.get('cplx')))},
             'events': execute(rec)}
 
 
